@@ -57,6 +57,19 @@ class HooksMixin(object):
                         if mid is not None and mid in self.view.objs and not self.view.objs[mid].deleted:
                             self.view.objs[mid].vals[attr] = val
                         self.probe('hook_modified_attribute')
+            elif mode == 'link' and event in ('before_insert', 'before_update') and en == 'Person':
+                # edit a many-to-many collection from inside the hook: the link must be written by the same flush
+                pmid = self.h2m.get(id(obj))
+                if pmid is not None and pmid in self.view.objs and not self.view.objs[pmid].deleted:
+                    ca = self.schema.by_name['Person'].by_name['courses']
+                    have = self.view.partners(ca, pmid)
+                    for cmid in sorted(self.handles):
+                        mo = self.view.objs.get(cmid)
+                        if mo is not None and mo.ent == 'Course' and not mo.deleted and cmid not in have:
+                            obj.courses.add(self.handles[cmid])
+                            self.view.link(ca, pmid, cmid)
+                            self.probe('hook_linked_many_to_many')
+                            break
             elif mode == 'create' and event == 'before_insert' and en in ('Person', 'Car'):
                 self.hook_counter = getattr(self, 'hook_counter', 0) + 1
                 msg = 'hook%d_%s' % (self.hook_counter, self.sess_index)
